@@ -6,10 +6,11 @@ from __future__ import annotations
 from typing import Callable, Iterator, Optional, Tuple
 
 BOUNDED_KINDS = ("tie", "order_t", "order_a")
+EARLY_KINDS = ("early",)
 
 
 def explore(run_one: Callable[[Tuple[int, ...]], "object"], tie_budget: Optional[int] = None,
-            max_execs: Optional[int] = None) -> Iterator[Tuple[Tuple[int, ...], object]]:
+            max_execs: Optional[int] = None, early_budget: Optional[int] = 1) -> Iterator[Tuple[Tuple[int, ...], object]]:
     """Yields (prefix, result) for every execution. `result.choices` = [(kind, n, chosen)...]."""
     stack = [()]
     n = 0
@@ -24,10 +25,13 @@ def explore(run_one: Callable[[Tuple[int, ...]], "object"], tie_budget: Optional
         taken = tuple(c for _, _, c in ch)
         # deviations used by the prefix
         used = sum(1 for (k, _, c) in ch[: len(prefix)] if k in BOUNDED_KINDS and c != 0)
+        used_e = sum(1 for (k, _, c) in ch[: len(prefix)] if k in EARLY_KINDS and c != 0)
         new = []
         for i in range(len(prefix), len(ch)):
             kind, k, c = ch[i]
             if kind in BOUNDED_KINDS and tie_budget is not None and used + 1 > tie_budget:
+                continue
+            if kind in EARLY_KINDS and early_budget is not None and used_e + 1 > early_budget:
                 continue
             for alt in range(1, k):
                 new.append(taken[:i] + (alt,))
